@@ -19,6 +19,7 @@ func isV6Codec(name string, f *ssa.Function) bool {
 func checkC02(c *Ctx) {
 	r := c.R
 	r.Decides = append(r.Decides,
+		"K12 no decoder method rewrites what it has decoded through a step that sees none of the input (a call after the first read that receives the receiver or a value loaded from it, nothing derived from the input, and writes memory reachable from it: de-duplicating, sorting, trimming a decoded list)",
 		"K1 dispatch agreement: for every ParseOption / parseNTPSuboption / DUIDFromBytes case K→T, T.Code() (DUIDType()) returns the constant K; every type implementing dhcpv6.Option with a constant Code() appears in a parser table; unknown codes fall back to the generic type",
 		"K2/K3 per-type wire schema: the slot sequence (width, field, transform) extracted from every DHCPv6 encoder and decoder (options, DUID kinds, message and relay headers, option framing) equals the reviewed row of spec/layouts.json, whose width skeleton was written from the cited RFC section; hence encoder and decoder agree slot by slot and with the RFC layout",
 		"K4 order: the option encoder ranges over the option slice; the decoder appends each parsed option (part of the Options rows)",
@@ -30,6 +31,7 @@ func checkC02(c *Ctx) {
 	e1CheckConstants(c, "C02-K5", []string{"dhcpv6.", "iana.StatusCode", "iana.Arch", "iana.HWType", "iana.EnterpriseID"}, 200)
 	byteOrderRule(c, "C02-K8", []string{"dhcpv6", "iana", "rfc1035label"}, 40)
 	platformWidthRule(c, "C02-K11", []string{"dhcpv6", "iana", "rfc1035label"})
+	decoderPostProcessing(c, "C02-K12")
 	e8CheckRejects(c, "C02-K9", func(n string) bool {
 		return strings.Contains(n, "dhcpv6.") || strings.Contains(n, "iana.") || strings.Contains(n, "rfc1035label.")
 	}, 15)
